@@ -38,6 +38,10 @@ theorem at_start_eq (h : HState) (start : Int) :
 
 theorem forever_stopped_eq (a : TopAtoms) : Extracted.marksForeverStopped a = marksForeverStopped a := rfl
 
+/-- `_runner`'s `finally`: an ended task whose stopper carries no reason is recorded as stopped for ever — a one-shot
+    timer that returned, and a task ended by an exception alike (finding C10-F4) -/
+theorem runner_marks_eq (a : RunnerAtoms) : Extracted.runnerMarksForever a = runnerMarksForever a := rfl
+
 /-- `_detect_causes`: when an event resets idling (`reset=` of the spawning cause; `seen` defaults to `new`) -/
 theorem reset_cond_eq (a : ResetAtoms) : Extracted.resetCond a = resetCond a := rfl
 
